@@ -194,7 +194,7 @@ impl State {
             match locate(slice.as_ptr(), slice.len()) {
                 Some(loc) => {
                     if si == 0 {
-                        log.u64(loc.0);
+                        log.u64(norm_chunk(loc.0));
                         log.u64(loc.1);
                     }
                 }
@@ -375,7 +375,7 @@ impl State {
             if !s.is_empty() {
                 match owning_iovec::verif::locate(s.as_ptr(), s.len()) {
                     Some((idx, off, _)) => {
-                        log.u64(idx);
+                        log.u64(norm_chunk(idx));
                         log.u64(off as u64);
                     }
                     None => {
@@ -1072,10 +1072,10 @@ impl World for IovecWorld {
         }
         let hard = rng.chance(1, 2);
         knobs.insert("hard_errors".to_string(), hard as u64);
-        let size_class = rng.below(4); // 0 tiny, 1 small, 2 medium, 3 large
+        let size_class = if ask.tiny { rng.below(2) } else { rng.below(4) }; // 0 tiny, 1 small, 2 medium, 3 large
         knobs.insert("size_class".to_string(), size_class);
-        let nops = match rng.below(4) {
-            0 => rng.range(3, 12),
+        let nops = match if ask.tiny { 0 } else { rng.below(4) } {
+            0 => rng.range(3, if ask.tiny { 20 } else { 12 }),
             1 => rng.range(12, 40),
             _ => rng.range(40, if ask.thorough { 160 } else { 90 }),
         };
@@ -1100,7 +1100,7 @@ impl World for IovecWorld {
         for _ in 0..nops {
             let k = KINDS[rng.weighted(&w)];
             let obj = if rng.chance(3, 4) { 0 } else { rng.below(N_OBJ as u64) };
-            let off = rng.below(POOL_UNIFORM as u64 - 80_000);
+            let off = rng.below((POOL_UNIFORM as u64).saturating_sub(80_000).max(1));
             let len = rng.boundary_size(bounds, max_len);
             let a = match k {
                 "push" | "push_borrowed" | "push_copy" | "sink_borrow" | "sink_copy" => [obj, off, len, 0],
@@ -1142,6 +1142,7 @@ impl World for IovecWorld {
 
     fn execute(&self, plan: &Plan, stats: &mut Stats) -> Outcome {
         let mut log = LogHash::new();
+        start_run_chunk_numbering();
         let hard = plan.knob("hard_errors") != 0;
         let base_chunks = ByteArena::num_live_chunks();
         let base_bytes = ByteArena::num_live_bytes();
@@ -1205,6 +1206,7 @@ impl World for IovecWorld {
             Ok(())
         }));
 
+        let mut extra: Vec<Violation> = Vec::new();
         let violation = match result {
             Ok(Ok(())) => {
                 let chunks = ByteArena::num_live_chunks();
@@ -1225,13 +1227,26 @@ impl World for IovecWorld {
                     None
                 }
             }
-            Ok(Err((i, f))) => Some(Violation {
-                prop: f.prop,
-                inv: f.inv.to_string(),
-                detail: f.detail,
-                at_op: i,
-                key: String::new(),
-            }),
+            Ok(Err((i, f))) => {
+                if f.inv == "C04.consumed_past_placeholder" {
+                    // Over-consumption also breaks the pipe contract: the call
+                    // removed bytes that were not consumable.
+                    extra.push(Violation {
+                        prop: "C03",
+                        inv: "C03.consumed_unstable".to_string(),
+                        detail: f.detail.clone(),
+                        at_op: i,
+                        key: String::new(),
+                    });
+                }
+                Some(Violation {
+                    prop: f.prop,
+                    inv: f.inv.to_string(),
+                    detail: f.detail,
+                    at_op: i,
+                    key: String::new(),
+                })
+            }
             Err(e) => {
                 let msg = panic_message(&e);
                 let i = at.get();
@@ -1259,7 +1274,7 @@ impl World for IovecWorld {
         };
         log.u64(violation.is_some() as u64);
         Outcome {
-            violations: violation.into_iter().collect(),
+            violations: violation.into_iter().chain(extra).collect(),
             log_hash: log.0,
             nontrivial: effective >= 8 && produced && consumed,
         }
